@@ -166,10 +166,20 @@ class Zone:
                 terms.add(a[2])
         for t in extra_terms:
             terms.add(norm(t))
+        # a decided three-way comparison of two usize values orders them
+        self._cmp = []
+        for a in atoms:
+            if a[0] == "is" and isinstance(a[1], tuple) and a[1][:2] == ("call", "<usize as Ord>::cmp") and len(a[1][2]) == 2:
+                xs = [_deref_value(x) for x in a[1][2]]
+                if None not in xs and a[2] in (255, -1, 0, 1):
+                    x, y = norm(xs[0]), norm(xs[1])
+                    terms.add(x)
+                    terms.add(y)
+                    self._cmp.append((x, y, a[2]))
         # sub-terms that carry definitional axioms
         for t in list(terms):
             for s in mir.walk(t):
-                if isinstance(s, tuple) and s and s[0] in ("binop", "pcall", "load", "int", "cparam"):
+                if isinstance(s, tuple) and s and (s[0] in ("binop", "pcall", "load", "int", "cparam") or s[:2] in (("call", "add_mod"), ("call", "sub_mod"))):
                     if s[0] == "binop" and s[1] not in ("Sub", "Add"):
                         continue
                     terms.add(s)
@@ -218,6 +228,14 @@ class Zone:
         for a in self.atoms:
             if a[0] == "le":
                 self._add(a[1], a[2], a[3])
+        for x, y, o in self._cmp:
+            if o in (255, -1):
+                self._add(x, y, -1)
+            elif o == 1:
+                self._add(y, x, -1)
+            else:
+                self._add(x, y, 0)
+                self._add(y, x, 0)
         # a few rounds: conditional axioms depend on what is already entailed
         for _ in range(5):
             self._close()
@@ -270,6 +288,10 @@ class Zone:
                         # a - b with b <= a: result <= a
                         if self.le(bb, a, 0) and self._add(t, a, 0):
                             changed = True
+                        # b <= a - k  =>  a - b >= k
+                        w = self.d[self.idx[bb]][self.idx[a]]
+                        if w < 0 and self._add(z, t, w):
+                            changed = True
                 if t[0] == "binop" and t[1] == "Add":
                     a, bb = norm(t[2]), norm(t[3])
                     if a in self.idx and bb in self.idx and bb[0] == "int" and bb[1] == 1:
@@ -282,6 +304,12 @@ class Zone:
                                 changed = True
                             if self._add(a, t, -1):
                                 changed = True
+                if t[0] == "call" and t[1] in ("add_mod", "sub_mod") and len(t[2]) == 3:
+                    # the modular helpers return a position: result < m when m > 0 (their contract; the
+                    # arithmetic that establishes it is C19's stated assumption)
+                    m = norm(t[2][2])
+                    if m in self.idx and self.le(z, m, -1) and self._add(t, m, -1):
+                        changed = True
                 if t[0] == "pcall" and t[1] in ("core::cmp::min", "core::cmp::Ord::min", "<usize>::min"):
                     for x in t[2]:
                         x = norm(x)
@@ -340,6 +368,14 @@ class Zone:
 
     def is_variant(self, e, v):
         return ("is", e, v) in self.atoms
+
+
+def _deref_value(e):
+    """the value behind `&local` / `&place` as the expression language records it"""
+    if isinstance(e, tuple) and e and e[0] == "ref" and isinstance(e[1], tuple):
+        if e[1][0] == "local" and len(e[1]) > 2:
+            return e[1][2]
+    return None
 
 
 def buffer_cparam(fn, base):
